@@ -221,3 +221,64 @@ func TestVerifC13(t *testing.T) { runProp(t, propC13) }
 var propC11 = &propDef{id: "C11", oracles: []oracleFn{oracleC11}, scenarios: c11Scenarios}
 
 func TestVerifC11(t *testing.T) { runProp(t, propC11) }
+
+var propC14 = &propDef{id: "C14", oracles: nil, scenarios: c14Scenarios, post: probeC14}
+
+func TestVerifC14(t *testing.T) { runProp(t, propC14) }
+
+// TestVerifC14Inputs: every interpreted annotation key x value menu x form, and every resource shape, through a full container lifecycle.
+func TestVerifC14Inputs(t *testing.T) {
+	w := mc.NewWorker(t, "C14")
+	defer w.Finish()
+	cases := c14InputCases(w.Thorough())
+	seq := []string{"run:p0", "create:c0", "start:c0", "update:c0:0", "sync", "reconf:0", "stop:c0", "remove:c0", "stoppod:p0", "rmpod:p0"}
+	replay := ""
+	if w.ReplayV != nil {
+		replay = w.ReplayV.Scenario
+		w.Replayer = nil
+	}
+	outcomes := map[string]bool{}
+	for i, s := range cases {
+		if replay != "" {
+			if s.name != replay {
+				continue
+			}
+		} else if !w.Mine(i) {
+			continue
+		}
+		var x *exec
+		var err error
+		pan, msg, where := mc.Guard(func() { x, err = newExec(s, scratchDir()) })
+		if pan || err != nil {
+			w.Report(mc.Violation{Property: "C14", Oracle: "setup", Signature: "setup-fails:" + s.policy, Scenario: s.name, Detail: fmt.Sprint(msg, where, err)})
+			continue
+		}
+		x.evIndex = -1
+		out := ""
+		for _, ev := range seq {
+			rp := x.step(ev)
+			w.Res.Evaluations++
+			if rp.panic != "" {
+				w.Report(mc.Violation{Property: "C14", Oracle: "panic", Signature: "panic@" + rp.where + ":" + strings.Split(ev, ":")[0], Scenario: s.name, Trace: []string{ev},
+					Detail: fmt.Sprintf("%s with %s panics: %s", ev, s.name, rp.panic)})
+				break
+			}
+			if rp.err != nil {
+				out += "E"
+			} else {
+				out += "."
+			}
+		}
+		outcomes[out] = true
+		if !x.in.dead {
+			for _, v := range probeC14(w, s, scratchDir(), seq, x, nil) {
+				w.Report(v)
+			}
+		}
+		w.Res.Nontrivial++
+		if i%97 == 0 {
+			w.Sample(map[string]any{"case": s.name, "outcome": out})
+		}
+	}
+	w.Res.Outcomes = int64(len(outcomes))
+}
